@@ -128,6 +128,10 @@ class Client:
     def loop_bind(self, st: ast.For, state) -> Iterable[Any]:
         return [state]
 
+    def raises_iter(self, st: ast.For, state) -> Iterable[str]:
+        """Exceptions raised by advancing the iterator of a for loop."""
+        return []
+
     def loop_exhausted(self, st: ast.For, state) -> Iterable[Any]:
         return [state]
 
@@ -309,7 +313,7 @@ class Flow:
                 for s in new:
                     exhausted |= set(c.loop_exhausted(st, s))
                     body_in |= set(c.loop_bind(st, s))
-                    for ex in c.raises(st, s):
+                    for ex in c.raises_iter(st, s):
                         out.exc.add((s, ex))
                 o = self._block(st.body, body_in)
                 out.ret |= o.ret
